@@ -186,6 +186,23 @@ CLAIMED = {
             "call-through recorder in vf/props/c11.py. Calls use offsets on character boundaries and 0 <= start_col < end_col <= width; "
             "invalid/truncated input is exercised but reported as DIVERGENCE only. Bounds in evidence.",
             "DESIGN.md §4 C11, §5"),
+    "C17": ("TLA+ contract AttrFlowOps.tla (innermost-tag attribution of markup, attribute maps with focus selection and inner-to-outer "
+            "composition, palette resolution per colour depth with aliases and default fallback); model AttrFlow.tla model-checked by TLC "
+            "(every markup tree of depth <= 3 over <= 5 characters, every chain of three maps, wrong readings refuted); TLC trace validation "
+            "(AttrFlowTrace.tla, running the emitted bytes on Terminal.tla via RawDisplayTrace.tla) of real Text / AttrMap / AttrWrap / "
+            "CompositeCanvas / raw_display.Screen executions",
+            "TLC proves AttrOf total and equal to a reference flattening for all bounded markup trees, the map laws (composition, identity, None, "
+            "untouched-unless-listed, fill_attr_apply's dictionary = outer after inner) for all bounded chains, and refutes outermost-tag, "
+            "forgotten-enclosing-tag, shifted-run, inner-after-outer and focus-map misreadings; it then judges every character of every canvas "
+            "rendered by the real Text for generated nested markup over position-unique wide/multi-byte/DEC/zero-width characters (str and bytes; "
+            "utf-8, euc-jp, iso8859-1) x widths x wrap x align, every cell before/after chains of <= 3 AttrMap/AttrWrap/fill_attr/fill_attr_apply at "
+            "three nesting levels x focus, and every cell of the reference terminal after it decoded the SGR the real Screen wrote for palettes of "
+            "all entry forms x {1,16,88,256,2^24} colours x bright-is-bold x registration order.",
+            "Trusted: TLC, Terminal.tla SGR decoding (DESIGN.md App. E), vf/term.py tokeniser and colour-description table, line_hints() (source "
+            "position read from the widget's own layout, re-checked by TLC against the unique glyph; layout is C03), stage-2 geometry. The inserted "
+            "ellipsis mark and blanks for cut wide characters may carry None or an attribute of the text / of the cut character (the property fixes "
+            "no more). Layout exceptions and charset/text mismatches are DIVERGENCE (C03/C04). Two defects found and repaired (findings/C17.json).",
+            "DESIGN.md §4 C17"),
 }
 
 NOT_APPLICABLE = {}
